@@ -20,7 +20,27 @@ SIZES = (
     {"initialWidth": 400, "initialHeight": 400, "layerGap": 60},
     {"initialWidth": 137, "initialHeight": 211, "layerGap": 1, "labelPadding": {"left": 0, "right": 5, "top": 1, "bottom": 7},
      "margin": {"left": 7, "right": 30, "top": 11, "bottom": 5}},
+    # long axes (used by the "long axis" slices only, not by the full product)
+    {"initialWidth": 2000, "initialHeight": 1980, "layerGap": 60},
+    {"initialWidth": 40000, "initialHeight": 40040, "layerGap": 60},
 )
+N_BASE_SIZES = 2
+LONG_DOMAINS = {"lin": ([0, 1], [0, 10], [0, 7], [-1, 11]), "time": ([_dt.datetime(2019, 12, 30), _dt.datetime(2020, 2, 5, 12)],)}
+
+
+def long_axis_cases(kind):
+    """Datasets on axes of ~2000 and ~40000 units, explicit domains, all directions, ticks on."""
+    times = LIN_TIMES if kind == "lin" else DT_TIMES
+    lo, hi = (0, 1) if kind == "lin" else (None, None)
+    for si in (2, 3):
+        for direction in DIRECTIONS:
+            for di, dom in enumerate(LONG_DOMAINS[kind]):
+                if kind == "lin":
+                    span = dom[1] - dom[0]
+                    data = [datum((dom[0] + span * fr, 40, x)) for fr, x in ((0.0, None), (0.31, "ab"), (0.5, None), (1.0, "ab"))]
+                else:
+                    data = [datum((t, 40, x)) for t, x in zip(times[:4], (None, "ab", None, "ab"))]
+                yield si, direction, list(dom), data
 LIN_DOMAIN = [-1, 11]
 DT_DOMAIN = [_dt.datetime(2019, 12, 30), _dt.datetime(2020, 2, 5, 12)]
 
@@ -56,7 +76,7 @@ def build_options(kind, direction, domain, engine, size, ticks, extra=None):
     opts.update(copy.deepcopy(size))
     opts["scale"] = LinearScale() if kind == "lin" else TimeScale()
     if domain:
-        opts["domain"] = list(LIN_DOMAIN if kind == "lin" else DT_DOMAIN)
+        opts["domain"] = list(domain) if isinstance(domain, (list, tuple)) else list(LIN_DOMAIN if kind == "lin" else DT_DOMAIN)
     if extra:
         opts.update(copy.deepcopy(extra))
     return opts
@@ -112,11 +132,23 @@ def check_geometry(R, backend, data, opts, scale, today=None):
         try:
             tvals = list(scale.ticks())
             fmt = scale.tickFormat()
+            if len(R["ticks"]) != len(tvals):
+                # the statement does not fix how many ticks are drawn: accept the ticks of any requested count, with the
+                # formatter that belongs to that count (linear scales format by count, time scales by value)
+                for m in range(1, 101):
+                    cand = list(scale.ticks(m))
+                    if len(cand) == len(R["ticks"]):
+                        tvals = cand
+                        try:
+                            fmt = scale.tickFormat(m)
+                        except TypeError:
+                            fmt = scale.tickFormat()
+                        break
             ttexts = [fmt(t) for t in tvals]
         except Exception as e:
             return "EXC:" + type(e).__name__, "scale.ticks()/tickFormat() raised %r" % (e,)
         if len(R["ticks"]) != len(tvals):
-            return "C07:tick-count", "%d ticks drawn, the scale reports %d" % (len(R["ticks"]), len(tvals))
+            return "C07:tick-count", "%d ticks drawn; no requested count 1..100 gives that many (the default gives %d)" % (len(R["ticks"]), len(tvals))
         prev = None
         for tk, tv, tt in zip(R["ticks"], tvals, ttexts):
             want = float(f(draw.as_number(tv)))
